@@ -122,7 +122,50 @@ func (ex *Exec) Discharge(outDir string, timeoutS, seed, workers int, agree bool
 	os.MkdirAll(outDir, 0o755)
 	var wg sync.WaitGroup
 	sem := make(chan struct{}, workers)
+	// cover queries: one satisfiable return path per function is enough; the others are skipped
+	coverGroups := map[string][]int{}
+	var coverOrder []string
 	for i, o := range ex.obls {
+		if o.Kind == "cover" {
+			if _, ok := coverGroups[o.Name]; !ok {
+				coverOrder = append(coverOrder, o.Name)
+			}
+			coverGroups[o.Name] = append(coverGroups[o.Name], i)
+		}
+	}
+	for _, name := range coverOrder {
+		idxs := coverGroups[name]
+		wg.Add(1)
+		sem <- struct{}{}
+		go func(idxs []int) {
+			defer wg.Done()
+			defer func() { <-sem }()
+			done := false
+			for _, i := range idxs {
+				o := ex.obls[i]
+				if done {
+					o.Status, o.Solver = "skipped", "cover-already-shown"
+					continue
+				}
+				file := filepath.Join(outDir, fmt.Sprintf("%04d_%s.smt2", i, sanitizeName(o.Name)))
+				os.WriteFile(file, []byte(ex.Query(o, false)), 0o644)
+				r, times, _ := race(file, timeoutS, seed, "")
+				o.Status, o.Solver, o.Seconds = r.status, r.solver, r.secs
+				stats.mu.Lock()
+				for k, v := range times {
+					stats.Seconds[k] += v
+				}
+				stats.mu.Unlock()
+				if r.status == "sat" {
+					done = true
+				}
+			}
+		}(idxs)
+	}
+	for i, o := range ex.obls {
+		if o.Kind == "cover" {
+			continue
+		}
 		if o.Kind != "cover" && o.Goal.S == "true" {
 			o.Status = "unsat"
 			o.Solver = "syntactic"
